@@ -272,6 +272,13 @@ def main():
         viol.append({'key': 'C09:calibrate-raises', 'what':
                      f'calibrate({key}) raises {type(e).__name__}: {str(e)[:120]}',
                      'input': {'recipe': desc, 'signature': key}})
+        # ... and the calibrate -> quantize workflow cannot supply the statistics
+        # quantization asks for (C10)
+        viol.append({'key': 'C10:calibrate-raises', 'what':
+                     f'calibrate({key}) raises {type(e).__name__}: {str(e)[:120]} (signature order '
+                     f'{[(s_.signatureKey.decode(), int(s_.subgraphIndex)) for s_ in m.signatureDefs]})',
+                     'input': {'recipe': desc, 'signature': key,
+                               'model_hex': mb.hex() if len(mb) < 20000 else None}})
         ok = False
         break
       # previous result not modified
@@ -315,7 +322,8 @@ def main():
       recipe_now = json.loads(json.dumps(qt.get_quantization_recipe()))
       # (the first call initialises entries for the selected ops of EVERY subgraph)
       allowed = set()
-      for gsel in m.subgraphs:
+      const_needed = {}
+      for gsel_i, gsel in enumerate(m.subgraphs):
         for o in gsel.operators:
           kn = tfu.TFL_OP_CODE_TO_NAME.get(m.operatorCodes[o.opcodeIndex].builtinCode)
           if kn is None:
@@ -324,6 +332,10 @@ def main():
           alg, _c = _os.spec_resolve(recipe_now, kn.value, scope)
           if alg != 'no_quantize':
             allowed.update(og.tname(gsel.tensors[int(x)]) for x in list(o.inputs) + list(o.outputs) if int(x) != -1)
+          if alg == 'min_max_uniform_quantize':
+            for x in o.inputs:
+              if int(x) != -1 and og.is_const(m, gsel.tensors[int(x)]):
+                const_needed[og.tname(gsel.tensors[int(x)])] = (gsel_i, kn.value)
         isc = ''.join(og.tname(gsel.tensors[x]) + ';' for x in gsel.inputs)
         if _os.spec_resolve(recipe_now, 'INPUT', isc)[0] != 'no_quantize':
           allowed.update(og.tname(gsel.tensors[int(x)]) for x in gsel.inputs)
@@ -333,6 +345,15 @@ def main():
       if extra:
         viol.append({'key': 'C09:statistic-for-unselected-tensor', 'what':
                      f'{extra[:3]}: recorded although no op the recipe selects reads or writes it',
+                     'input': {'recipe': desc, 'signature': key,
+                               'model_hex': mb.hex() if len(mb) < 30000 else None}})
+      # ---- C09 oracle: EVERY constant of a selected op has statistics, whichever
+      # signature's subgraph it belongs to and however the session was resumed ----
+      lacking = [(nm, w) for nm, w in const_needed.items() if nm not in res]
+      if lacking:
+        viol.append({'key': 'C09:constant-without-statistics', 'what':
+                     f'after calibrate({key}) (previous result: {"yes" if prev is not None else "no"}) the constants '
+                     f'{[(nm, "subgraph %d %s" % w) for nm, w in lacking[:3]]} of selected operators have no entry',
                      'input': {'recipe': desc, 'signature': key,
                                'model_hex': mb.hex() if len(mb) < 30000 else None}})
       # ---- C09 oracle: constants = their true per-tensor or per-channel min/max ----
